@@ -369,15 +369,19 @@ static void emit_literal(WorkList *list, const char *str) {
 }
 
 static void emit_formatted(WorkList *list, const char *fmt, ...) {
-    char buffer[2048];
-    va_list args;
+    /* Sized by the text: a long string literal must not be cut off */
+    va_list args, measure;
     va_start(args, fmt);
-    vsnprintf(buffer, sizeof(buffer), fmt, args);
+    va_copy(measure, args);
+    int needed = vsnprintf(NULL, 0, fmt, measure);
+    va_end(measure);
+    char *text = needed >= 0 ? malloc((size_t)needed + 1) : NULL;
+    if (text) vsnprintf(text, (size_t)needed + 1, fmt, args);
     va_end(args);
     
     WorkItem item;
     item.type = WORK_FORMATTED;
-    item.data.formatted = strdup(buffer);
+    item.data.formatted = text;
     if (!item.data.formatted) {
         fprintf(stderr, "Error: Out of memory duplicating formatted string\n");
         exit(1);
